@@ -21,13 +21,13 @@ var c03Engines = []string{"memkv", "badger", "tikv", "memkv+m", "tikv/split", "b
 func init() {
 	Registry["C03"] = &Prop{
 		Plan: func(tier string) Plan {
-			return Plan{Level: "exploration", NCases: pick(tier, 96, 1500), Batch: 6, CaseTimeout: 120,
+			return Plan{Level: "exploration", NCases: pick(tier, 96, 3000), Batch: 6, CaseTimeout: 120,
 				Rule: "one case = one PRNG sequential history (30-300 create/update/delete incl. failing ones) over prefix-related key names and hostile values on one engine (memkv, Badger, TiKV mock, metrics-wrapped, and engines reporting several partitions); " +
 					"every Get/List/limited List/Count at every checkpoint revision is compared with the reference MVCC snapshot, again after more writes and after a compaction below the checkpoint. " +
 					"non-trivial = history with >=1 deletion visible at some checkpoint, >=1 multi-version key and >=1 limited list cut short; distinct by (engine, outcome vector, key set)",
 				Assumptions: []string{"reads are issued only at revisions the node reported (response headers) and not below the compaction floor",
 					"TiKV is the in-process mock cluster"},
-				MinConcl: pick(tier, 60, 1000)}
+				MinConcl: pick(tier, 60, 2000)}
 		},
 		Name: func(c *harness.Case) string { return "seq-" + c03Engines[c.Index%len(c03Engines)] },
 		Run:  runC03,
